@@ -39,6 +39,18 @@ def correspondence(ctx):
     radio = [n for n, s in zip(names, stable) if not s]
     only = ["Sr-90", "Cs-137", "U-238"] + rng.sample(radio, 60 if thorough else 5)
     cases = D.gen_cases(rng, names, stable, 0, 30 if thorough else 3, "InventoryHP", only=only, cum_every=1, tmax=10)
+    # small inventories mixing a radionuclide with stable nuclides / members of its own chain
+    import numpy as np, os
+    dd = np.load(os.path.join(C.REPO, "radioactivedecay/icrp107_ame2020_nubase2020/decay_data.npz"), allow_pickle=True)
+    prog = {str(n): [str(x) for x in pl if str(x) != "SF"] for n, pl in zip(dd["nuclides"], dd["progeny"])}
+    stab = [n for n, s in zip(names, stable) if s]
+    for parent in ["Cs-137", "Sr-90"] + rng.sample(radio, 12 if thorough else 2):
+        chain = D.closure_of(names, prog, [parent])
+        members = [parent] + rng.sample(sorted(chain - {parent}), min(len(chain) - 1, rng.randint(1, 2))) if len(chain) > 1 else [parent]
+        if rng.random() < 0.5:
+            members.append(rng.choice(stab))
+        cases.append({"cls": "InventoryHP", "contents": {m: float(f"{10 ** rng.uniform(3, 9):.4g}").hex() for m in set(members)},
+                      "unit": "num", "t": float(f"{10 ** rng.uniform(5, 9):.4g}").hex(), "tunit": "s", "cum": True})
     D.decay_stream(rng, cases, "check_hp_decay Default", "cumulative_hp", streams, viol, samples,
                    "InventoryHP.cumulative_decays: relative 1e-13 of the proved enclosure", shard=2)
     return {"streams": streams, "violations": viol, "samples": samples}
